@@ -139,7 +139,8 @@ class Oracle:
 
 
 def mismatches(oracle, ops, res):
-    return [i for i, (s, r) in enumerate(zip(ops, res)) if r != oracle.value(s)]
+    """positions whose result is not the fresh value (or, for a self-checking operation, is inconsistent in itself)"""
+    return [i for i, (s, r) in enumerate(zip(ops, res)) if r != oracle.value(s) or c15ops.selfcheck_bad(r)]
 
 
 # ----------------------------------------------------------------------------------- snapshot classification
@@ -171,6 +172,32 @@ class SnapRules:
             else:
                 bad.append([path, before, after])
         return bad, fills
+
+
+def attr_of(path):
+    """the attribute a snapshot path ends in, container keys/indices removed:
+       mod:Cls.X._cache[["0x02..", "0x1e"]].m_y -> m_y ;  mod:Cls._cache[["0x02..", "0x1e"]] -> _cache"""
+    out, depth, instr, esc = [], 0, False, False
+    for ch in path:
+        if depth:
+            if instr:
+                if esc:
+                    esc = False
+                elif ch == "\\":
+                    esc = True
+                elif ch == '"':
+                    instr = False
+            elif ch == '"':
+                instr = True
+            elif ch == "[":
+                depth += 1
+            elif ch == "]":
+                depth -= 1
+        elif ch == "[":
+            depth = 1
+        else:
+            out.append(ch)
+    return "".join(out).rsplit(".", 1)[-1].rsplit(":", 1)[-1]
 
 
 # ----------------------------------------------------------------------------------- delta debugging
@@ -226,7 +253,7 @@ class Shrinker:
 
         def failing_many(cands, own=False):
             ans = self.pool.run([{"ops": c + [x]} for c in cands], own)
-            return [("res" in a and a["res"][-1] != v0) for a in ans]
+            return [("res" in a and (a["res"][-1] != v0 or c15ops.selfcheck_bad(a["res"][-1]))) for a in ans]
         prefix = ops[:pos]
         if not failing_many([prefix])[0]:
             return None                 # the difference does not reproduce in a fresh process: see caller
@@ -235,7 +262,7 @@ class Shrinker:
         small = ddmin(prefix, failing_many, deadline)
         a = self.pool.run([{"ops": small + [x]}], True)[0]
         v1 = a["res"][-1] if "res" in a else None
-        return (small + [x], v1, v0, v1 is not None and v1 != v0)
+        return (small + [x], v1, v0, v1 is not None and (v1 != v0 or c15ops.selfcheck_bad(v1)))
 
     def snapshot_failure(self, ops, path, budget_s=60):
         deadline = time.time() + budget_s
